@@ -27,11 +27,14 @@ HelperAttrs == CASE c.helper = "skip" -> << TS("#[typeshare(skip)]") >>
                                                     TS("#[typeshare(typescript(readonly))]") >>
                  [] c.helper = "triple" -> << TS("#[typeshare(skip)]"), TS("#[typeshare(swift(type = \"Int\"))]"), A("cfg", "#[cfg(all())]"),
                                              TS("#[typeshare(kotlin(type = \"Int\"))]") >>
-MixBefore == IF c.mix = "none" THEN <<>> ELSE << A("doc", "/// documented"), A("cfg", "#[cfg(all())]") >>
+\* mix docs_after: the helper comes FIRST and several doc lines and a serde attribute follow it (what survives keeps its order)
+MixBefore == IF c.mix \in {"none", "docs_after"} THEN <<>> ELSE << A("doc", "/// documented"), A("cfg", "#[cfg(all())]") >>
 \* serde attributes valid at the position: fields take `default`, variants take `rename` (unions derive nothing)
 \* mix cfg_attr: a conditional attribute (true predicate) that carries a serde rename and merely MENTIONS the word typeshare
 \* (in a doc string, in a feature name): it is not a typeshare attribute, Strip keeps it, and so must the macro
-MixAfter(pos) == IF c.mix = "serde" /\ c.kind # "union"
+MixAfter(pos) == IF c.mix = "docs_after"
+                 THEN << A("doc", "/// first line of the documentation"), A("doc", "/// second line"), A("doc", "/// third line") >>
+                 ELSE IF c.mix = "serde" /\ c.kind # "union"
                  THEN << A("serde", IF pos = "variant" THEN "#[serde(rename = \"renamed_key\")]" ELSE "#[serde(default)]") >>
                  ELSE IF c.mix = "cfg_attr"
                  THEN << A("cfg_attr", IF c.kind = "union" THEN "#[cfg_attr(not(feature = \"typeshare-off\"), doc = \"typeshare is only mentioned\")]"
